@@ -824,7 +824,7 @@ func (h *c11Table) expectedRow(r int) c11View {
 }
 
 // name the class of the first wrong observation
-func (h *c11Table) classify(got, want c11View, onRow bool) string {
+func (h *c11Table) classify(got, want c11View, onRow bool, row int) string {
 	count := func(xs []int) map[int]int {
 		m := map[int]int{}
 		for _, x := range xs {
@@ -857,6 +857,12 @@ func (h *c11Table) classify(got, want c11View, onRow bool) string {
 				return "nil-entry-in-log"
 			}
 			if o, ok := h.origin[id]; ok {
+				if onRow && h.srcOf[id] != row {
+					return "row-outside-table-shows-errors-not-its-own"
+				}
+				if !onRow && h.wasPending[id] {
+					return "row-error-in-table-log-before-attach-or-twice:" + c11Coarse(o)
+				}
 				return "extra-or-duplicate:" + c11Coarse(o)
 			}
 			return "foreign-error-in-log"
@@ -930,7 +936,7 @@ func c11RunTable(sp c11Spec) CaseOut {
 		if want := c11ViewOfLog(h.expTable); !tv.eq(want) {
 			sd.Wrong = "Table.Errors() is not the expected log"
 			if desc.Sig == "" {
-				desc.Sig = h.classify(tv, want, false)
+				desc.Sig = h.classify(tv, want, false, -1)
 			}
 		} else {
 			// rows outside the table first (the property's oracle looks at those),
@@ -945,7 +951,7 @@ func c11RunTable(sp c11Spec) CaseOut {
 						if desc.Sig == "" {
 							switch {
 							case pass == 0:
-								desc.Sig = h.classify(rvs[i], want, true)
+								desc.Sig = h.classify(rvs[i], want, true, id)
 							case sigCorr != "":
 							case h.sep[id]:
 								sigCorr = "D11-separator-row-does-not-show-the-table-log"
